@@ -178,13 +178,13 @@ ASSUME_PWL = [
 ]
 PROPS['C09'].update({
     'level': 'other',
-    'units': ['pwl_tree'],
+    'units': ['pwl_tree', 'tree_iter'],
     'technique': 'Verus contracts on find_terminal / evaluate_decision / index_from_label / evaluate (label = decide(node, x), labels follow the path, evaluate == denoted partial function) + bounded replay (bc regions) for the polyhedra()/polyhedra_iter() streams',
     'level_text': ('Mixed. PROVED modulo "f64 = reals" (Verus, all trees of any shape / index layout, all inputs): index_from_label computes sum 2^i[b_i]; evaluate_decision returns decide(node, x) '
                    '(bit i set iff row_i.x <= b_i); find_terminal returns a terminal together with exactly the labels of a path from the start node to it such that every label is the one '
                    'its decision selects for x (so x satisfies every reported path condition), returns None exactly when the selected branch of a reached decision is missing, and never '
                    'reaches its panic; evaluate(x) equals the denoted partial function tree_fn(root, x), undefinedness included. '
-                   'BOUNDED (bc regions): PolyhedraGen / PolyhedraIter streams (order, depth, sibling counters, path polytopes, all skip_subtree positions), interior points routed through '
+                   'The node stream under polyhedra() is DfsPre: its next / skip_subtree step contracts (unit tree_iter, see C13) are discharged here as well. BOUNDED (bc regions): PolyhedraGen / PolyhedraIter streams (order, depth, sibling counters, path polytopes, all skip_subtree positions, single and repeated), interior points routed through '
                    'their node, disjoint interiors, coverage of total trees.'),
     'design_ref': 'DESIGN.md §4 C09',
     'assumptions': ASSUME_COMMON + ASSUME_SLAB + ASSUME_ND + ASSUME_PWL + ASSUME_BC,
